@@ -3,6 +3,7 @@
 import json, glob, re, os
 rows = []
 caught = 0
+elsewhere = 0
 dirs = sorted(glob.glob('/verif/seeded/*/'), key=lambda d: (d.split('/')[-2].split('-')[0], int(d.split('/')[-2].split('-')[1])))
 for d in dirs:
     name = d.rstrip('/').split('/')[-1]
@@ -16,8 +17,12 @@ for d in dirs:
         caught += 1
         rules = sorted({k.split(':')[0] for k in chk.get('finding_keys', [])})
         verdict = 'caught by ' + ', '.join(rules)
+    elif chk.get('exit_code') == 2:
+        verdict = 'undecided (exit 2: shape not recognised)'
     else:
         verdict = 'missed (value-level)'
+        if others:
+            elsewhere += 1
     if others:
         verdict += '; also reported by ' + ', '.join(others)
     rows.append(f'| {name} | {summ} | {verdict} |')
@@ -28,4 +33,4 @@ i = s.index('| id | change | verdict of `./run.sh <property> quick` |')
 j = s.index('### 10.6')
 s = s[:i] + table + '\n' + s[j:]
 open(p, 'w').write(s)
-print(f'{caught} of {len(rows)} caught')
+print(f'{caught} of {len(rows)} caught by their own property, {elsewhere} more only by another property')
